@@ -29,7 +29,7 @@
     gen/coro.py: `true` = `next` is read before `finish_released` (repaired), `false` = after.
 
   Ghost state (never read by a non-ghost update): `glist` (the waiter list as a list), the lists
-  carried by the program counters of `wake_one` / `wake_all`, `own`, `pub`, `resumes`, `bad`,
+  carried by the program counters of `wake_one` / `wake_all`, `own`, `pub`, `rsm`, `wslot`, `resumes`, `bad`,
   `allocs`, `frees`.
   Core Lean only.
 -/
@@ -65,6 +65,7 @@ structure Slot where
   used : Bool := false      -- an id was issued for this slot at least once
   own : Option Actor := none   -- ghost: who took it
   pub : Bool := false       -- ghost: the wait of this round has been linked (its token may exist)
+  rsm : Bool := false       -- ghost: the taker has issued the resume of this round's waiter
   deriving DecidableEq, Repr, Inhabited
 
 inductive FrSt
@@ -101,8 +102,8 @@ inductive Pc
   | oFree (n : Nat)
   -- Futex::wake_all
   | aLock (f : Nat)
-  | aScan (f : Nat) (hd : Option Nat) (tail : TailP) (cur : Nat) (took : List Nat)
-  | aUnlock (f : Nat) (hd : Option Nat) (took : List Nat)
+  | aScan (f : Nat) (hd : Option Nat) (tail : TailP) (cur : Nat) (took pend skip l0 : List Nat)   -- ghost: taken so far, not yet scanned, skipped, list at lock time
+  | aUnlock (f : Nat) (hd : Option Nat) (took skip l0 : List Nat)
   | aNext (n k : Nat) (took rs : List Nat)                     -- repaired shape: `next_node = node->next`
   | aResume (n : Nat) (nx : Option Nat) (k : Nat) (took rs : List Nat)
   | aFree (n : Nat) (nx : Option Nat) (k : Nat) (took rs : List Nat)
@@ -127,11 +128,11 @@ structure State where
   box : Nat → Slot := fun _ => {}
   fr : Nat → FrSt := fun _ => .fresh
   fex : Nat → Nat := fun _ => 0                -- executor a frame is bound to
-  cpc : Nat → Pc := fun _ => .idle
-  fpc : Nat → Pc := fun _ => .idle
+  pc : Actor → Pc := fun _ => .idle            -- program counter of every actor
   res : Nat → Nat := fun _ => 0                -- value returned by the last call of a client
   -- ghost
   glist : Nat → List Nat := fun _ => []
+  wslot : Nat → Option Nat := fun _ => none    -- the slot of the linked wait a frame is suspended in
   resumes : Nat → Nat := fun _ => 0
   bad : Bool := false
   allocs : Nat := 0
@@ -139,20 +140,18 @@ structure State where
 
 def upd {α : Type} (f : Nat → α) (i : Nat) (v : α) : Nat → α := fun j => if j = i then v else f j
 
-def State.pc (s : State) : Actor → Pc
-  | .cl t => s.cpc t
-  | .fr h => s.fpc h
+def updA {α : Type} (f : Actor → α) (a : Actor) (v : α) : Actor → α := fun b => if b = a then v else f b
 
-def State.setPc (s : State) (a : Actor) (p : Pc) : State :=
-  match a with
-  | .cl t => { s with cpc := upd s.cpc t p }
-  | .fr h => { s with fpc := upd s.fpc h p }
+def State.cpc (s : State) (t : Nat) : Pc := s.pc (.cl t)
+def State.fpc (s : State) (h : Nat) : Pc := s.pc (.fr h)
+
+def State.setPc (s : State) (a : Actor) (p : Pc) : State := { s with pc := updA s.pc a p }
 
 /-- a client call returns `k` -/
 def State.ret (s : State) (a : Actor) (k : Nat) : State :=
   match a with
-  | .cl t => { s with cpc := upd s.cpc t .idle, res := upd s.res t k }
-  | .fr h => { s with fpc := upd s.fpc h .idle }
+  | .cl t => { s with pc := updA s.pc a .idle, res := upd s.res t k }
+  | .fr _ => { s with pc := updA s.pc a .idle }
 
 def State.setPrev (s : State) (n : Nat) (p : Ptr) : State :=
   { s with node := upd s.node n { s.node n with prev := p } }
@@ -179,9 +178,14 @@ def State.free (s : State) (n : Nat) : State :=
 /-- `promise->resume(handle)` -/
 def State.resume (s : State) (h : Nat) : State :=
   if s.fr h = .suspended then
-    { s with fr := upd s.fr h .resuming, resumes := upd s.resumes h (s.resumes h + 1) }
+    { s with fr := upd s.fr h .resuming, resumes := upd s.resumes h (s.resumes h + 1), wslot := upd s.wslot h none }
   else
-    { s with bad := true, resumes := upd s.resumes h (s.resumes h + 1) }
+    { s with bad := true, resumes := upd s.resumes h (s.resumes h + 1), wslot := upd s.wslot h none }
+
+/-- the taker of slot `n` resumes the coroutine stored in the node -/
+def State.resumeOf (s : State) (n : Nat) : State :=
+  let s1 := s.resume (s.node n).h
+  { s1 with box := upd s1.box n { s1.box n with rsm := true } }
 
 /-- observable label of a step (vocabulary of the lock-step replay) -/
 inductive Ev
@@ -229,7 +233,8 @@ def State.linkFront (s : State) (f n : Nat) : State :=
     | some x => s2.setPrev x (.node n)
     | none => s2
   { s3 with glist := upd s3.glist f (n :: s3.glist f),
-            box := upd s3.box n { s3.box n with pub := true } }
+            box := upd s3.box n { s3.box n with pub := true },
+            wslot := upd s3.wslot (s3.node n).h (some n) }
 
 /-- One step of actor `a`.  `inp` is the id `(slot, version)` an `emplace` obtains (the only
 nondeterministic input; constrained by the DepositBox specification above). -/
@@ -240,7 +245,7 @@ def step (c : Cfg) (s : State) (a : Actor) (inp : Nat × Nat) : Option (State ×
   | .wAlloc f v =>
     let (n, ver) := inp
     if (s.box n).alloc = false ∧ ((s.box n).used = false ∨ (s.box n).ver < ver) then
-      some (({ s with box := upd s.box n { ver := ver, taken := false, alloc := true, used := true, own := none, pub := false },
+      some (({ s with box := upd s.box n { ver := ver, taken := false, alloc := true, used := true, own := none, pub := false, rsm := false },
                       allocs := s.allocs + 1 }).setPc a (.wCons f v n ver), .alloc n ver)
     else none
   | .wCons f v n ver =>
@@ -289,7 +294,7 @@ def step (c : Cfg) (s : State) (a : Actor) (inp : Nat × Nat) : Option (State ×
     | some n => some (s1.setPc a (.oResume n), .unlock f)
   | .oResume n =>
     let h := (s.node n).h
-    some ((s.resume h).setPc a (.oFree n), .resume h (s.fex h))
+    some ((s.resumeOf n).setPc a (.oFree n), .resume h (s.fex h))
   | .oFree n =>
     some ((s.free n).ret a 1, .free n)
   -- ---------------------------------------------------------------- wake_all
@@ -297,27 +302,27 @@ def step (c : Cfg) (s : State) (a : Actor) (inp : Nat × Nat) : Option (State ×
     if s.lock f = none then
       let s1 := { s with lock := upd s.lock f (some a), hnext := upd s.hnext f none, glist := upd s.glist f [] }
       match s.hnext f with
-      | none => some (s1.setPc a (.aUnlock f none []), .lock f)
-      | some x => some (s1.setPc a (.aScan f (some x) .hd x []), .lock f)
+      | none => some (s1.setPc a (.aUnlock f none [] [] (s.glist f)), .lock f)
+      | some x => some (s1.setPc a (.aScan f (some x) .hd x [] (s.glist f) [] (s.glist f)), .lock f)
     else none
-  | .aScan f hd tail cur took =>
+  | .aScan f hd tail cur took pend skip l0 =>
     let nx := (s.node cur).next
     let ver := (s.node cur).ver
     let s1 := s.setPrev cur .null
     let (ok, s2) := s1.take cur ver a
     if ok then
       match nx with
-      | none => some (s2.setPc a (.aUnlock f hd (took ++ [cur])), .take cur ver true)
-      | some y => some (s2.setPc a (.aScan f hd (.nx cur) y (took ++ [cur])), .take cur ver true)
+      | none => some (s2.setPc a (.aUnlock f hd (took ++ [cur]) skip l0), .take cur ver true)
+      | some y => some (s2.setPc a (.aScan f hd (.nx cur) y (took ++ [cur]) pend.tail skip l0), .take cur ver true)
     else
       -- `*tail = node->next`
       let (hd', s3) := match tail with
         | .hd => (nx, s2)
         | .nx t => (hd, s2.setNext t nx)
       match nx with
-      | none => some (s3.setPc a (.aUnlock f hd' took), .take cur ver false)
-      | some y => some (s3.setPc a (.aScan f hd' tail y took), .take cur ver false)
-  | .aUnlock f hd took =>
+      | none => some (s3.setPc a (.aUnlock f hd' took (skip ++ [cur]) l0), .take cur ver false)
+      | some y => some (s3.setPc a (.aScan f hd' tail y took pend.tail (skip ++ [cur]) l0), .take cur ver false)
+  | .aUnlock f hd took _ _ =>
     let s1 := { s with lock := upd s.lock f none }
     match hd with
     | none => some (s1.ret a 0, .unlock f)
@@ -328,7 +333,7 @@ def step (c : Cfg) (s : State) (a : Actor) (inp : Nat × Nat) : Option (State ×
     some (s.setPc a (.aResume n (s.node n).next k took rs), .rdnext n (s.node n).next)
   | .aResume n nx k took rs =>
     let h := (s.node n).h
-    some ((s.resume h).setPc a (.aFree n nx k took (rs ++ [n])), .resume h (s.fex h))
+    some ((s.resumeOf n).setPc a (.aFree n nx k took (rs ++ [n])), .resume h (s.fex h))
   | .aFree n nx k took rs =>
     let s1 := s.free n
     if c.nextFirst then
@@ -355,7 +360,7 @@ def step (c : Cfg) (s : State) (a : Actor) (inp : Nat × Nat) : Option (State ×
     some (({ s1 with lock := upd s1.lock f none }).setPc a (.cResume n), .unlock f)
   | .cResume n =>
     let h := (s.node n).h
-    some ((s.resume h).setPc a (.cFree n), .resume h (s.fex h))
+    some ((s.resumeOf n).setPc a (.cFree n), .resume h (s.fex h))
   | .cFree n =>
     some ((s.free n).ret a 1, .free n)
 
@@ -374,16 +379,18 @@ inductive Step (c : Cfg) : State → State → Prop
   | run (s : State) (h : Nat) : s.fr h = .resuming → Step c s (s.run h)
   /-- a running coroutine evaluates `co_await futex(f).wait(v)` -/
   | wait (s : State) (h f v : Nat) : s.fr h = .running → s.fpc h = .idle →
-      Step c s { s with fr := upd s.fr h .suspended, fpc := upd s.fpc h (.wAlloc f v) }
+      Step c s ({ s with fr := upd s.fr h .suspended }.setPc (.fr h) (.wAlloc f v))
   /-- a running coroutine returns -/
   | finish (s : State) (h : Nat) : s.fr h = .running → s.fpc h = .idle →
       Step c s { s with fr := upd s.fr h .done }
   | wakeOne (s : State) (t f : Nat) : s.cpc t = .idle → Step c s (s.setPc (.cl t) (.oLock f))
   | wakeAll (s : State) (t f : Nat) : s.cpc t = .idle → Step c s (s.setPc (.cl t) (.aLock f))
   | setVal (s : State) (t f v : Nat) : s.cpc t = .idle → Step c s (s.setPc (.cl t) (.sSet f v))
-  /-- `Cancellation::operator()`: the token `(n, ver)` came out of an `on_suspend` callback, i.e. if it
-  names the current round of slot `n`, that wait has been linked -/
+  /-- `Cancellation::operator()`: the token `(n, ver)` came out of an `on_suspend` callback: it was
+  issued by an earlier `emplace`, and if it names the current round of slot `n`, that wait has been
+  linked -/
   | cancel (s : State) (t n ver : Nat) : s.cpc t = .idle →
+      (s.box n).used = true → ver ≤ (s.box n).ver →
       ((s.box n).ver = ver → (s.box n).taken = false → (s.box n).pub = true) →
       Step c s (s.setPc (.cl t) (.cTake n ver))
 
